@@ -235,12 +235,27 @@ def _inv_derive_dup_symbol(L):
     L.classes['DAB'].derive_unit_from(L.units['a0'][0], L.units['b0'][0], symbol='b0')
 
 
+def _inv_type_unknown_keyword(L):
+    C.mk_cls('DK', ref_unit_symbol='kw0', ref_unit_nmae='Kay')
+
+
+def _inv_type_unknown_keyword_derived(L):
+    C.mk_cls('DKD', define_as=L.classes['DA'] ** 3, ref_unit_symbol='kw3', quantun=1)
+
+
+def _inv_type_quantum_without_ref_unit(L):
+    C.mk_cls('DQ', quantum=1)
+
+
 # (name, requires, expected exception class name, function, symbols that must stay unknown)
 INVALID = [
     ('dup-dimension', ('DAB',), 'ValueError', _inv_dup_dim(None), []),
     ('dup-dimension-with-ref-symbol', ('DAB',), 'ValueError', _inv_dup_dim('abdup'), ['abdup']),
     ('dup-dimension-equivalent-term', ('DAB',), 'ValueError', _inv_dup_dim_equiv, ['dup2']),
     ('dup-dimension-over-reference-less-type', ('DAW',), 'ValueError', _inv_dup_dim_noref, ['awdup']),
+    ('type-unknown-keyword', (), 'AssertionError', _inv_type_unknown_keyword, ['kw0']),
+    ('type-unknown-keyword-derived', ('DA',), 'AssertionError', _inv_type_unknown_keyword_derived, ['kw3']),
+    ('type-quantum-without-ref-unit', (), 'AssertionError', _inv_type_quantum_without_ref_unit, []),
     ('type-dup-symbol', ('DA',), 'ValueError', _inv_type_dup_symbol, []),
     ('type-dup-predefined-symbol', (), 'ValueError', _inv_type_dup_predefined_symbol, []),
     ('unit-dup-symbol', ('DA',), 'ValueError', _inv_unit_dup_symbol, []),
